@@ -54,6 +54,7 @@ def gen_cases(ctx):
         n_direct = ctx.scale(150, 2500)
     for i in range(n_direct):
         rng = ctx.rng(1, i)
+        pe, ne = gen.exponents(rng)
         big = rng.random() < 0.01
         nmax = ctx.scale(10000, 100000)
         case = {
@@ -63,7 +64,7 @@ def gen_cases(ctx):
             "tex": str(rng.choice(gen.TEXTURE_KINDS)), "vol": str(rng.choice(gen.VOLUME_KINDS)),
             "Lkind": str(rng.choice(gen.L_KINDS)),
             "scale": float(10.0 ** rng.uniform(-16, 3)) if rng.random() < 0.4 else 1.0,
-            "p": float(rng.uniform(1, 2)), "nexp": float(rng.uniform(2, 5)), "lam": float(rng.choice([0.0, 5.0, rng.uniform(0, 10), 50.0])),
+            "p": pe, "nexp": ne, "lam": float(rng.choice([0.0, 5.0, rng.uniform(0, 10), 50.0])),
             "M": float(rng.choice([0.0, 125.0, rng.uniform(0, 200), 10.0, 1.0, 3.0])), "phi": float(rng.choice([1.0, rng.uniform(0.01, 1), 0.7, 0.05])),
             "M_int": bool(rng.random() < 0.3),
             "k": float(rng.choice([0.0, 0.37, 2.0, 7.3, 1e3])),
